@@ -334,6 +334,9 @@ class Interp:
             return ("native", getattr({"str": str, "dict": dict, "list": list}[obj[1]], name))
         if isinstance(obj, FakeModule):
             return ("native", getattr(obj, name))
+        if getattr(type(obj), "_interp_native_", False):
+            val = getattr(obj, name)
+            return ("native", val) if callable(val) else val
         if isinstance(obj, tuple) and len(obj) == 2 and obj[0] == "pymodule":
             if obj[1] == "warnings":
                 return ("native", lambda *a, **k: None)
@@ -345,7 +348,7 @@ class Interp:
         if isinstance(obj, (list, tuple, dict, set, str)) and hasattr(obj, name):
             return ("pymethod", obj, name)
         import re as _re
-        if type(obj).__module__ in ("uuid", "_hashlib", "hashlib", "_md5") and hasattr(obj, name):
+        if type(obj).__module__ in ("uuid", "_hashlib", "hashlib", "_md5", "logging", "collections") and hasattr(obj, name):
             v = getattr(obj, name)
             return ("pymethod", obj, name) if callable(v) else v
         if isinstance(obj, (_re.Match, _re.Pattern)) and hasattr(obj, name):
@@ -574,6 +577,8 @@ class Interp:
             return out
         if isinstance(it, _Gen):
             return it.items
+        if type(it).__name__ in ("list_iterator", "tuple_iterator", "generator", "dict_keyiterator", "set_iterator"):
+            return list(it)
         if isinstance(it, Obj):
             m = self.method(it, "__iter__")
             if m is not None:
@@ -765,6 +770,8 @@ class Interp:
                 return env[n.id]
             if n.id in self.overrides:
                 return self.overrides[n.id]
+            if n.id == "__name__" and func is not None:
+                return "inscripta.biocantor." + func.module.name
             if n.id in ("True", "False", "None"):
                 return {"True": True, "False": False, "None": None}[n.id]
             if self.repo.has_cls(n.id):
@@ -795,6 +802,11 @@ class Interp:
                 return ("builtin", mod.imports[n.id][1])
             if mod is not None and n.id in mod.imports and mod.imports[n.id][0] in ("operator", "contextlib", "functools") and mod.imports[n.id][1] is None:
                 return ("pymodule", mod.imports[n.id][0])
+            if mod is not None and n.id in mod.imports and mod.imports[n.id] == ("logging", None):
+                return ("pymodule", "logging")
+            if mod is not None and n.id in mod.imports and mod.imports[n.id] == ("collections", "Counter"):
+                import collections
+                return ("native", collections.Counter)
             if mod is not None and n.id in mod.imports and mod.imports[n.id] == ("collections", "defaultdict"):
                 return ("builtin", "defaultdict")
             if mod is not None and n.id in mod.imports and mod.imports[n.id] == ("dataclasses", "astuple"):
@@ -911,6 +923,8 @@ class Interp:
                 if k in mem:
                     return mem[k]
                 raise Raised("KeyError", str(k))
+            if type(o).__name__ == "Counter":
+                return o[k]
             if isinstance(o, dict):
                 for kk, vv in o.items():
                     if self.equals(kk, k, depth):
@@ -1239,6 +1253,10 @@ class Interp:
             def wrap(a):
                 if isinstance(a, tuple) and a and a[0] in ("lambda", "closure", "bound"):
                     return lambda *xs: self.apply(a, list(xs), {}, func, depth)
+                if isinstance(a, ClassTok) and self.is_enum_class(a.name):
+                    return self.iterate(a)
+                if isinstance(a, _Gen):
+                    return list(a.items)
                 return a
             try:
                 res = f[1](*[wrap(a) for a in args], **{k: wrap(v) for k, v in kwargs.items()})
@@ -1510,7 +1528,16 @@ class Interp:
             if isinstance(g, _Gen):
                 if g.items:
                     return g.items.pop(0)
+                if len(args) > 1:
+                    return args[1]
                 raise Raised("StopIteration")
+            if hasattr(g, "__next__"):
+                try:
+                    return next(g)
+                except StopIteration:
+                    if len(args) > 1:
+                        return args[1]
+                    raise Raised("StopIteration")
             raise Uninterpretable("next on non-iterator")
         if name in BUILTIN_EXC:
             return Opaque(name)
